@@ -466,6 +466,32 @@ def run_case(case):
             r.viol("C20|%s|copy-of-the-copy-differs:%s" % (cls, ",".join(keys[:2])[:100]),
                    "a copy of the mutated copy of %s differs from it: %s" % (kind, "; ".join(walker.diff(a2, b2, limit=4))), {})
             return r
+        # ---- a THIRD copy, made from the second one after that was changed too
+        try:
+            second.definition = "the-second-copy-was-changed"
+            if children is None:
+                K["copy"](dest, second, keep, "third-copy")
+            else:
+                K["copy"](dest, second, keep, "third-copy", children)
+            third = [e for e in getattr(dest, K["cont"]) if e.name == "third-copy"][-1]
+            a3 = walker.canon(core_subtree(second))
+            b3 = walker.canon(core_subtree(third))
+            a3.pop("name", None)
+            b3.pop("name", None)
+            if children is False:
+                a3["sections"] = []
+            r.transitions += 1
+            if a3 != b3:
+                keys = walker.diff_keys(a3, b3)
+                r.viol("C20|%s|third-copy-differs:%s" % (cls, ",".join(keys[:2])[:100]),
+                       "a copy of the changed second copy of %s differs from it: %s" % (kind, "; ".join(walker.diff(a3, b3, limit=4))), {})
+                return r
+            if walker.canon(core_subtree(copy)).get("definition") != "the-copy-was-changed":
+                r.viol("C20|%s|changing-the-second-copy-changed-the-first" % cls, "the first copy lost its own definition after the second copy was changed", {})
+                return r
+        except Exception as e:  # noqa
+            r.viol("C20|%s|third-copy-raises-%s" % (cls, type(e).__name__), "making a third copy of %s raises %s: %s" % (kind, type(e).__name__, str(e)[:120]), {})
+            return r
         # ---- independence: every mutation of the menu on the copy, then on the source
         for side, target, other in (("copy", copy, src), ("source", src, copy)):
             for mname, mfn in menu(kind):
